@@ -2082,6 +2082,19 @@ class Interp:
         fi = FuncInfo(self.module, None, node, "")
         env[node.name] = FuncV(fi, closure_env=env)
 
+    def s_Delete(self, node, env):
+        for t in node.targets:
+            if isinstance(t, ast.Subscript):
+                o = self.eval(t.value, env)
+                idx = self.eval_index(t.slice, env)
+                if isinstance(o, (list, dict)) and (concrete_int(idx) is not None or is_concrete(idx)):
+                    del o[concrete_int(idx) if concrete_int(idx) is not None else idx]
+                    continue
+            if isinstance(t, ast.Name) and t.id in env:
+                del env[t.id]
+                continue
+            raise Unsupported("del %s" % ast.unparse(t))
+
     def s_Assert(self, node, env):
         c = self.truth(self.eval(node.test, env))
         if isinstance(c, bool):
